@@ -1064,6 +1064,93 @@ func (in *inliner) threadDepth(f *ssa.Function, cont *ssa.BasicBlock, depth int)
 			break
 		}
 	}
+	if depth == 0 {
+		for _, cb := range ends {
+			in.splitMergedReturnSite(f, cb)
+		}
+	}
+}
+
+// splitMergedReturnSite: a return site of an inlined helper that several ways lead to
+// (`if err != nil || !ok { return false, err }`) hands on values that differ per way in. When
+// the branch that follows it in the caller is decided by each way in on its own, the site gets
+// one copy per way in and each copy's branch is folded: the caller's `if err != nil` after the
+// call is then as path-exact as it was when the helper's body stood there.
+func (in *inliner) splitMergedReturnSite(f *ssa.Function, cb *ssa.BasicBlock) {
+	for k := 0; k < 4; k++ {
+		if len(cb.Instrs) == 0 || len(cb.Succs) != 1 {
+			break
+		}
+		if _, isJ := cb.Instrs[len(cb.Instrs)-1].(*ssa.Jump); !isJ {
+			break
+		}
+		s := cb.Succs[0]
+		if s == cb || len(s.Preds) != 1 || len(s.Instrs) == 0 {
+			break
+		}
+		if _, isPhi := s.Instrs[0].(*ssa.Phi); isPhi {
+			break
+		}
+		fuse(f, cb, s)
+	}
+	if len(cb.Instrs) == 0 || len(cb.Preds) < 2 {
+		return
+	}
+	if _, isIf := cb.Instrs[len(cb.Instrs)-1].(*ssa.If); !isIf || len(cb.Succs) != 2 {
+		return
+	}
+	// not the head of a loop
+	for _, p := range cb.Preds {
+		if p == cb || !reachableAvoiding(f, p, cb) {
+			return
+		}
+	}
+	for _, p := range cb.Preds {
+		if _, ok := branchOutcome(predChain(cb, p)); !ok {
+			return
+		}
+	}
+	allow := map[ssa.Instruction]bool{}
+	for _, x := range cb.Instrs {
+		if c, ok := x.(*ssa.Call); ok {
+			if g := staticCallee(&c.Call); g != nil && g.Pkg != nil && g.Pkg.Pkg.Path() == "reflect" && g.Name() == "ValueOf" && len(c.Call.Args) == 1 {
+				if _, isK := c.Call.Args[0].(*ssa.Const); isK {
+					allow[c] = true
+				}
+			}
+		}
+	}
+	out := in.splitPerPredAllow(f, cb, allow)
+	if len(out) < 2 {
+		return
+	}
+	for _, nb := range out {
+		foldBranch(nb)
+	}
+	in.touched[f] = true
+}
+
+// reachableAvoiding: some path from the entry of f reaches b without passing through avoid.
+func reachableAvoiding(f *ssa.Function, b, avoid *ssa.BasicBlock) bool {
+	if len(f.Blocks) == 0 || f.Blocks[0] == avoid {
+		return false
+	}
+	seen := map[*ssa.BasicBlock]bool{f.Blocks[0]: true}
+	work := []*ssa.BasicBlock{f.Blocks[0]}
+	for len(work) > 0 {
+		x := work[len(work)-1]
+		work = work[:len(work)-1]
+		if x == b {
+			return true
+		}
+		for _, s := range x.Succs {
+			if s != avoid && !seen[s] {
+				seen[s] = true
+				work = append(work, s)
+			}
+		}
+	}
+	return false
 }
 
 // testsResultOnly: the block reads result variables of inlined calls, compares and branches, nothing else.
